@@ -116,6 +116,7 @@ type Interp struct {
 	observations []Observation
 	nativeCache map[string]any
 	decodeCache map[decodeKey]decoded
+	concretizeInts bool
 	trace    bool
 	depth    int
 }
@@ -236,7 +237,7 @@ func (in *Interp) global(g *ssa.Global) Ptr {
 	// lazily created zero cell; initialisers run explicitly (see runInit)
 	if g.Pkg != nil {
 		path := g.Pkg.Pkg.Path()
-		if !strings.HasPrefix(path, "servitor") && !in.P.initAllow[path] && !strings.HasPrefix(g.Name(), "init$") {
+		if !strings.HasPrefix(path, "servitor") && !in.P.initAllow[path] && !strings.HasPrefix(g.Name(), "init$") && !strings.HasPrefix(path, "github.com/yuin/goldmark") {
 			in.unsupported("global " + g.String() + " of a package whose initialiser is not executed")
 		}
 	}
@@ -306,6 +307,8 @@ func (in *Interp) call(caller *frame, fn Value, args []Value) Value {
 		return in.callSSA(caller, fn.Fn, args, fn.Env)
 	case *ssa.Builtin:
 		return in.callBuiltin(caller, fn, args)
+	case nativeMethod:
+		return in.invokeNative(caller, fn.recv, fn.name, args)
 	}
 	panic(fmt.Sprintf("cannot call %T", fn))
 }
@@ -341,6 +344,7 @@ func (in *Interp) callSSA(caller *frame, fn *ssa.Function, args []Value, env []V
 			}
 		}
 		if nf, ok := nativeFuncs[key]; ok {
+			in.concretizeInts = key == "strings.Repeat"
 			if r, handled := in.callNative(caller, nf, fn.Signature, args); handled {
 				return r
 			}
@@ -468,6 +472,11 @@ func (fr *frame) runDefer(d *deferred) {
 	}()
 	fr.in.call(fr, d.fn, d.args)
 	ok = true
+}
+
+type nativeMethod struct {
+	recv Native
+	name string
 }
 
 type continuation int
@@ -679,6 +688,14 @@ func (in *Interp) prepareCall(fr *frame, call *ssa.CallCommon) (Value, []Value) 
 		recv := in.resolveIface(fr, v)
 		if recv.T == nil {
 			in.throw(fr, "invalid memory address or nil pointer dereference (method call on nil interface)")
+		}
+		if n, ok := recv.V.(Native); ok {
+			m := call.Method.Name()
+			var nargs []Value
+			for _, a := range call.Args {
+				nargs = append(nargs, fr.get(a))
+			}
+			return nativeMethod{n, m}, nargs
 		}
 		f := in.P.prog.LookupMethod(recv.T, call.Method.Pkg(), call.Method.Name())
 		if f == nil {
